@@ -224,12 +224,19 @@ func vNewWorld(t testing.TB, ws *vWorldSpec) *vWorld {
 			}
 			c2s.TransportParams = a
 		}
-		ph := w.phantoms[rs.Phantom].To4()
-		ipu := binary.BigEndian.Uint32(ph)
 		src := pb.RegistrationSource_API
 		c2sw := &pb.C2SWrapper{SharedSecret: vSecret(rs.Secret), RegistrationPayload: c2s, RegistrationSource: &src,
-			RegistrationAddress: net.ParseIP("198.51.100.7").To4(), RegistrationResponse: &pb.RegistrationResponse{Ipv4Addr: &ipu}}
-		reg, err := rm.NewRegistrationC2SWrapper(c2sw, false)
+			RegistrationAddress: net.ParseIP("198.51.100.7").To4()}
+		isV6 := w.phantoms[rs.Phantom].To4() == nil
+		if isV6 {
+			// an IPv6 phantom: the client asks for IPv6, the registrar pins the address
+			c2s.V4Support, c2s.V6Support = &fl, &tr
+			c2sw.RegistrationResponse = &pb.RegistrationResponse{Ipv6Addr: w.phantoms[rs.Phantom].To16()}
+		} else {
+			ipu := binary.BigEndian.Uint32(w.phantoms[rs.Phantom].To4())
+			c2sw.RegistrationResponse = &pb.RegistrationResponse{Ipv4Addr: &ipu}
+		}
+		reg, err := rm.NewRegistrationC2SWrapper(c2sw, isV6)
 		if err != nil {
 			t.Fatalf("building registration %s: %v", rs.Name, err)
 		}
@@ -590,12 +597,15 @@ func TestVerifClassify(t *testing.T) {
 		}
 		wg.Wait()
 		// secondary invariant: the connection-statistics state machine balances once every handler has returned
-		c := &w.cm.connStats.ipv4
-		ld := func(p *int64) int64 { return atomic.LoadInt64(p) }
+		c, c6 := &w.cm.connStats.ipv4, &w.cm.connStats.ipv6
+		ld := func(p, q *int64) int64 { return atomic.LoadInt64(p) + atomic.LoadInt64(q) } // IPv4 + IPv6 phantoms
 		out.Emit(map[string]any{"kind": "connstats", "cases": len(batch),
-			"in_flight": map[string]int64{"created": ld(&c.numCreated), "reading": ld(&c.numReading), "checking": ld(&c.numChecking), "discarding": ld(&c.numIODiscarding)},
-			"outcomes":  map[string]int64{"found": ld(&c.numFound), "reset": ld(&c.numReset), "timeout": ld(&c.numTimeout), "closed": ld(&c.numClosed), "err": ld(&c.numErr)},
-			"new": ld(&c.numNewConns), "resolved": ld(&c.numResolved), "transitions": ld(&c.totalTransitions)})
+			"in_flight": map[string]int64{"created": ld(&c.numCreated, &c6.numCreated), "reading": ld(&c.numReading, &c6.numReading),
+				"checking": ld(&c.numChecking, &c6.numChecking), "discarding": ld(&c.numIODiscarding, &c6.numIODiscarding)},
+			"outcomes": map[string]int64{"found": ld(&c.numFound, &c6.numFound), "reset": ld(&c.numReset, &c6.numReset),
+				"timeout": ld(&c.numTimeout, &c6.numTimeout), "closed": ld(&c.numClosed, &c6.numClosed), "err": ld(&c.numErr, &c6.numErr)},
+			"new": ld(&c.numNewConns, &c6.numNewConns), "resolved": ld(&c.numResolved, &c6.numResolved),
+			"transitions": ld(&c.totalTransitions, &c6.totalTransitions)})
 		w.cm.connStats.Reset()
 		batch = nil
 	}
